@@ -19,6 +19,7 @@ from hypothesis import strategies as st
 from .. import strategies as S
 from ..common import permuted
 from ..engine import Clause, Violation, require
+from ..common import with_history  # noqa: E402
 
 ASSUMPTIONS = [
     "random walk: unweighted connected Hypergraph, nodes exactly 0..N-1 (N 2..8), hyperedge sizes "
@@ -70,6 +71,7 @@ def connected_hypergraphs(draw, tier):
             "nodes_first": draw(st.booleans())}
 
 
+@with_history
 def build_rw(hc):
     from hypergraphx import Hypergraph
     h = Hypergraph()
@@ -305,6 +307,7 @@ def contagion_cases(draw, tier, deterministic):
             "nodes_first": draw(st.booleans())}
 
 
+@with_history
 def build_contagion(case):
     from hypergraphx import Hypergraph
     L = case["U"]["labels"]
